@@ -88,6 +88,7 @@ def run(ck: common.Check, tier: str) -> None:
             else:
                 r, _ = rig.init()
                 if r != ("ok", True):
+                    ck.violation("the client does not initialise against an answering console", dict(replay, failure=f"init() -> {r}"))
                     continue
                 if moment == "after-init-idle":
                     rig.advance(rng.choice([10 * TICK, 299 * TICK, 301 * TICK, 650 * TICK]))
